@@ -2,7 +2,7 @@
    sumbool map to OCaml's; N, Z, positive, nat stay the extracted inductive types. *)
 From Coq Require Import Extraction ExtrOcamlBasic.
 From Coq Require Import ZArith NArith List.
-From Lithium Require Import PyBase TcRecord Util Testcase Driver Minimize PyLines Markers Splitters.
+From Lithium Require Import PyBase TcRecord Util Testcase Driver Minimize PyLines Markers Splitters SplitJs SplitAttrs StatusTypes Status.
 Extraction Language OCaml.
 Extraction "model.ml"
   Util.divide_rounding_up Util.is_power_of_two Util.largest_power_of_two_smaller_than
@@ -10,4 +10,5 @@ Extraction "model.ml"
   TcRecord.content
   Driver.run Driver.run_check_only Driver.replay
   PyLines.splitlines Markers.find_markers Splitters.load_line Splitters.load_char Splitters.load_symbol
-  Splitters.DEFAULT_CUT_AFTER Splitters.DEFAULT_CUT_BEFORE Minimize.minimize Minimize.no_post.
+  Splitters.DEFAULT_CUT_AFTER Splitters.DEFAULT_CUT_BEFORE SplitJs.load_jsstr SplitAttrs.load_attrs
+  Status.classify Status.reported_code Status.crashes_verdict Status.hangs_verdict Minimize.minimize Minimize.no_post.
